@@ -52,6 +52,12 @@ def run(P, rep, tier):
     # the per-node table of attached objects (and the metadata directory path) is rebuilt from the container on every
     # access: a cached view deletes the whole metadata directory / writes to a moved node's old location
     rep.attempt(c07.r5_fresh_view, P, rep, ctx, "C06.R7")
+    rep.attempt(r9_separator_in_last_segment, P, rep, ctx)
+    rep.attempt(r10_unregister_callers, P, rep, ctx)
+    # unlinking relies on the driver's delete: on IH5 a deleted object must stay deleted across patch boundaries
+    from . import c01
+
+    rep.attempt(c01.r2_delete_marker, P, rep, ctx)
     rep.floor("C06.R1", 18)
     rep.floor("C06.R2", 10)
     rep.floor("C06.R3", 10)
@@ -64,6 +70,64 @@ def run(P, rep, tier):
         from .pinned import refine
 
         refine(P, rep, ctx, "C06")
+
+
+UNREGISTER_CALLERS = {
+    f"{I}.MetadorMeta._del_raw": "deleting an attached object removes its link (and, when it was the last one, its schema / package records)",
+    f"{I}.TOCLinks.find_broken": "repair: links whose target is gone are removed",
+}
+
+
+def r10_unregister_callers(P, rep, ctx, rule="C06.R10"):
+    """TOCLinks.unregister is the step that also garbage-collects the schema / parent-chain / package records of a schema
+    whose last object goes away.  It is for objects that cease to exist; a link that is re-targeted or re-created for a
+    living object must not go through it (the records would be dropped while the object is still stored)."""
+    n = 0
+    for fn in P.functions.values():
+        if fn.module.name not in (I, W):
+            continue
+        for c in local_calls(fn.node):
+            if not (isinstance(c.func, ast.Attribute) and c.func.attr == "unregister"):
+                continue
+            recv = norm(c.func.value)
+            if not (recv == "self" and fn.cls is not None and fn.cls.name == "TOCLinks" or recv.endswith("_links")):
+                continue
+            n += 1
+            top = fn
+            while getattr(top, "parent", None) is not None:
+                top = top.parent
+            rep.check(top.qual in UNREGISTER_CALLERS, rule, fn.qual, f"unregister is called for an object that goes away ({top.name})", fn.loc(c), construct=f"{top.name}: {norm(c)[:60]}",
+                      message=f"{fn.qual} un-registers a link (`{norm(c)[:60]}`); only {sorted(q.rsplit('.', 1)[1] for q in UNREGISTER_CALLERS)} may: un-registering also removes the embedded schema, parent chain and package record when this was the schema's only object — for an object that still exists (moved / re-linked) the container stops describing it")
+    rep.check(n >= 2, rule, "container", "un-registration sites found", P.module(I).relpath, construct="unregister call sites", message=f"only {n} unregister call sites found (expected the delete and the repair site)")
+
+
+def r9_separator_in_last_segment(P, rep, ctx):
+    """`<ep-name>=<uuid>` is the name of a metadata object, i.e. the LAST segment of its path.  User node names may contain
+    '=' themselves, so the separator is only ever looked for / cut at inside the last segment, and paths of objects are
+    built from (directory, ep-name, uuid), never by cutting a full path at '='."""
+    n = 0
+    CUTS = ("split", "rsplit", "partition", "rpartition", "index", "rindex", "find", "rfind")
+    for fi in P.functions.values():
+        if fi.module.name not in ("container.interface", "container.wrappers", "container.utils"):
+            continue
+        f = None
+        for c in local_calls(fi.node):
+            if not (isinstance(c.func, ast.Attribute) and c.func.attr in CUTS and c.args and isinstance(c.args[0], ast.Constant) and c.args[0].value == "="):
+                continue
+            f = f or F(ctx, fi)
+            g = f.g
+            site = node_of(g, c)
+            recv = f.x_at(site, c.func.value) if site is not None else norm(c.func.value)
+            n += 1
+            last = any(t in recv for t in (".split('/')[-1]", ".split('/').pop()", ".rsplit('/', 1)[-1]", ".rsplit('/', 1)[1]", ".rpartition('/')[2]", ".rpartition('/')[-1]")) or recv.endswith(".pop()") and ".split('/')" in norm(ast.Module(body=[fi.node], type_ignores=[]))
+            full = recv.endswith(".name") or recv.endswith("_path") or recv.endswith(".to_path()")
+            if last:
+                rep.ok("C06.R9", fi.qual, f"'=' is looked for inside the last path segment ({recv[:50]})", fi.loc(c))
+            elif full:
+                rep.fail("C06.R9", fi.qual, f"{norm(c)[:90]}", f"`{norm(c)[:90]}` cuts a full node path at the first '=': a user group whose name contains '=' (e.g. `T=300K`) is cut instead of the object name, so metadata objects / TOC links are addressed at a wrong path", fi.loc(c))
+            else:
+                rep.info(f"C06.R9: `{norm(c)[:70]}` in {fi.qual}: receiver neither a last segment nor a full path (no verdict)")
+    rep.check(n >= 1, "C06.R9", "container", "the '=' separator of object names is parsed somewhere", P.module("container.interface").relpath, construct="'=' parse sites", message="no site parses `<ep-name>=<uuid>` any more: rule has nothing to check")
 
 
 def _r6(P, rep, ctx):
@@ -261,7 +325,12 @@ def r2_node_ops(P, rep, ctx):
     c_ = dn.calls("self.meta._destroy(_unlink=_unlink)")
     rep.check(bool(c_) and dn.hit_before(dn.g.exit, nodes=c_), "C06.R2", dn.fi.qual, "node metadata destruction deletes every attached object", dn.fi.loc(), construct="node destroy", message="MetadorNode._destroy_meta does not call meta._destroy")
     ds = F(ctx, P.func(f"{I}.MetadorMeta._destroy"))
-    loops = [n for n in ds.g.nodes if n.kind == "for" and ds.x(n.stmt.iter) in ("list(self.keys())", "tuple(self.keys())", "list(self)", "sorted(self.keys())", "list(self._objs.keys())", "list(self._objs)") and isinstance(n.stmt.target, ast.Name)]
+    def _key_snapshot(it):
+        # a copy (list / tuple / sorted / set of ..) of the keys of the table of attached objects, however that is spelled
+        e = ds.xe(it)
+        return isinstance(e, ast.Call) and isinstance(e.func, ast.Name) and e.func.id in ("list", "tuple", "sorted", "set", "frozenset") and len(e.args) == 1 and not e.keywords and norm(M.canon_collections(e.args[0])) in ("self", "self._objs")
+
+    loops = [n for n in ds.g.nodes if n.kind == "for" and _key_snapshot(n.stmt.iter) and isinstance(n.stmt.target, ast.Name)]
     ok = len(loops) == 1 and ds.hit_before(ds.g.exit, nodes=[loops[0].idx]) and _loop_always(ds, loops[0].idx, ds.calls(f"self._del_raw({loops[0].stmt.target.id}, _unlink=_unlink)"))
     rep.check(ok, "C06.R2", ds.fi.qual, "_destroy deletes every attached object (iterating a snapshot of the keys)", ds.fi.loc(), construct="_destroy", message="_destroy does not delete all attached objects over a snapshot of keys")
     # move
